@@ -983,7 +983,7 @@ func runC25(c *Ctx) {
 // allows, and texts it must reject
 func (c *Ctx) c25DecoderTexts() []string {
 	ts := []string{
-		"@u8[]", "@u8[ ]", "@U8X[FF 0a]", "@u8[0 017 0x1f 0b11 0o17 1_0 1__0 0x_f 08]", "@u8[256]", "@u8[255 ]", "@u8[ 1  2\t3\n4\r\n5 ]", "@u8[1", "@u8[1]]",
+		"@u8[]", "@u8[ ]", "@U8X[FF 0a]", "@u8[0 017 0x1f 0b11 0o17 1_0 1__0 0x_f 08]", "@u8[256]", "@u8[255 ]", "@i8[010 -0017 08 09 00 -00 0x10 0_10]", "@u32[0008 00_1 0_0 000 0010]", "@i8[0_10 00_8 0__1 -0_0_7 0_ 0_x1]", "@i8[0_10 00_8 0__1 -0_0_7]", "@u8[0_8 0_1_0 00__255]", "@u8[0_256]", "@u8[0_8 0_1_0 00__255 0_256]", "@u8[0_]", "@u8[0_x1]", "@i16[-0_0]", "@u8[0377 0255]", "@u8[0256]", "@i16[-032768 +05]", "@u8[00x1]", "@i8[0b010 0o010 -0x010]", "@u8[ 1  2\t3\n4\r\n5 ]", "@u8[1", "@u8[1]]",
 		"@u8[-1]", "@u8[+1]", "@u8x[0x1]", "@u8x[1_0]", "@u8x[fg]", "@u8x[100]", "@u8b[2]", "@u8b[11111111 100000000]", "@u8o[377 400 8]", "@u8[1_]", "@u8[_1]", "@u8[0x]", "@u8[0b]", "@u8[00 000 0_0]",
 		"@u16[65535 65536 0xffff 0x1_0000]", "@u32x[ffffffff 100000000]", "@u64[18446744073709551615]", "@u64[18446744073709551616]", "@u64x[ffffffffffffffff 10000000000000000]",
 		"@i8[-128 127 -0 0x7f -0x80 -0b1 -0o7 017 -017]", "@i8[128]", "@i8[-129]", "@i8x[-80 7F -0]", "@i8x[80]", "@i8b[-10000000]", "@i8b[10000000]", "@i8[--1]", "@i8[-]", "@i8[1-2]",
